@@ -199,6 +199,10 @@ class Atomizer:
             return self.bdefs[e.id]
         if isinstance(e, ast.Call) and isinstance(e.func, ast.Name) and e.func.id == "len" and len(e.args) == 1 and not e.keywords:
             return neg(atom("eq(%s, 0)" % self.canon(e)))  # truthiness of a length
+        if isinstance(e, ast.Call) and isinstance(e.func, ast.Name) and e.func.id == "isinstance" and len(e.args) == 2 and not e.keywords \
+                and isinstance(e.args[1], ast.Tuple) and e.args[1].elts:
+            # isinstance(x, (A, B)) == isinstance(x, A) or isinstance(x, B): one atom per class
+            return disj(*[self.formula(ast.Call(func=e.func, args=[e.args[0], c], keywords=[])) for c in e.args[1].elts])
         if isinstance(e, ast.Compare):
             if len(e.ops) == 1:
                 return self.compare(e.left, e.ops[0], e.comparators[0])
@@ -293,6 +297,65 @@ def _fmt(c):
     return str(int(c)) if float(c) == int(c) else str(c)
 
 
+_BOUND = {"repo": None, "owner": {}}
+
+
+def bind_repo(repo):
+    """Let PathConditions resolve calls of always-raising helpers (``_raise_invalid(...)``): such a call statement is a
+    rejection site exactly like an inline ``raise``.  Call once per run with the Repo under analysis."""
+    owner = {}
+    for m in repo.modules.values():
+        for nm, node in m.defs.items():
+            if isinstance(node, (ast.FunctionDef, ast.AsyncFunctionDef)):
+                owner[id(node)] = (m, None)
+    for c in repo.classes.values():
+        for fn in c.methods.values():
+            owner[id(fn)] = (c.module, c)
+    _BOUND["repo"], _BOUND["owner"] = repo, owner
+
+
+def _always_raises(fn):
+    from .cfg import block_always_raises
+    body = [st for st in fn.body if not (isinstance(st, ast.Expr) and isinstance(st.value, ast.Constant))]
+    for st in ast.walk(fn):
+        if isinstance(st, ast.Raise) and st.exc is not None:
+            e = st.exc.func if isinstance(st.exc, ast.Call) else st.exc
+            nm = astq.dotted(e) if hasattr(astq, "dotted") else None
+            if nm is None:
+                from .index import dotted as _d
+                nm = _d(e)
+            if nm and nm.split(".")[-1] == "NotImplementedError":
+                return False  # an abstract method: the call dispatches to an override
+    return bool(body) and block_always_raises(body)
+
+
+def _default_raising_calls(fn):
+    repo = _BOUND["repo"]
+    hit = _BOUND["owner"].get(id(fn)) if repo is not None else None
+    if hit is None:
+        return None
+    module, cls = hit
+
+    def resolver(call, at):
+        f = call.func
+        target = None
+        if isinstance(f, ast.Name):
+            sym = repo.resolve_name(module, f.id)
+            if sym is not None and sym.kind == "func":
+                target = sym.target
+        elif isinstance(f, ast.Attribute) and isinstance(f.value, ast.Name) and cls is not None and f.value.id in ("self", "cls", cls.name):
+            h = repo.lookup_method(cls, f.attr)
+            target = h[1] if h else None
+        if target is not None and target is not fn and _always_raises(target):
+            rn = [x for x in ast.walk(target) if isinstance(x, ast.Raise)]
+            if rn:
+                resolver.raise_nodes[id(call)] = rn[-1]
+            return TRUE
+        return None
+    resolver.raise_nodes = {}
+    return resolver
+
+
 class PathConditions:
     """Path conditions of a loop-light function body: under which condition does the function
     raise / return normally / execute a marked statement."""
@@ -308,6 +371,8 @@ class PathConditions:
         self.return_sites = []
         self.return_truth = []  # (condition, formula of the returned expression) per return site
         self.loops = 0
+        if inline_raising_calls is None:
+            inline_raising_calls = _default_raising_calls(fn)
         self.inline_raising_calls = inline_raising_calls  # callable(call) -> formula or None: condition under which the call raises
         alive = self.walk(fn.body, TRUE)
         self.returns = disj(self.returns, alive)
@@ -394,6 +459,9 @@ class PathConditions:
                 r = self.inline_raising_calls(c, self.at)
                 if r is not None:
                     self.raises = disj(self.raises, conj(alive, r))
+                    rn = getattr(self.inline_raising_calls, "raise_nodes", {}).get(id(c))
+                    if rn is not None:
+                        self.raise_sites.append((rn, conj(alive, r)))  # the helper's own `raise` (exception type, message)
                     alive = conj(alive, neg(r))
         stored = [n.id for n in ast.walk(st) if isinstance(n, ast.Name) and isinstance(n.ctx, ast.Store)]
         pre = None
